@@ -189,6 +189,27 @@ def main(tier, write_baseline=False):
         seen.add(o["name"])
         cand = next(iter(fails.values()), None)
         fi = {"docstring": cand[0], "what": cand[1]} if cand else None
+        if "derive_docstring_format" in o["name"]:
+            # the contract's claim on the real router: ReST fields decide, whatever the prose says
+            import contracts.C15 as C15c
+            from cdd.shared.docstring_utils import Style, derive_docstring_format
+
+            fi = None
+            for prose in ("The hook mirrors this signature (Args: name, retries. Returns: bool).", "Raises: nothing. Kwargs: none.", "Plain summary."):
+                for fld in C15c.REST_FIELDS:
+                    doc = "%s\n\n%s a: the a\n" % (prose, fld)
+                    got = derive_docstring_format(doc)
+                    if got is not Style.rest:
+                        fi = {"docstring": doc, "what": "derive_docstring_format returned %r for a docstring with the ReST field %r" % (got, fld), "function": "derive_docstring_format"}
+                        break
+                if fi:
+                    break
+            if fi is None:
+                for doc in ("Summary.\n\nArgs:\n  a: the a\n", "Summary.\n\nReturns:\n  the result\n"):
+                    got = derive_docstring_format(doc)
+                    if got is not Style.google:
+                        fi = {"docstring": doc, "what": "derive_docstring_format returned %r for a Google docstring without any ReST field" % (got,), "function": "derive_docstring_format"}
+                        break
         if "section-line-recognised" in o["name"]:
             # replay the contract's claim on the real scanner: a header, then a line that starts a section
             import contracts.C15 as C15c
